@@ -359,7 +359,9 @@ def gen_emit_doc(rng, families=True):
             wave = rng.choice([None, "D"]) if kind == "AVP" else None
             ls3 = rng.choice([None, "GSpline.EFF"]) if r3 in ("K(1)(1270)bar-", "a(1)(1260)+", "K(1460)bar-") else None
             inner = ["D", r3, wave, ls3, [two_body(rng, r2), ["D", b3, None, None, []]]]
-            lines.append(["line", ["D", "D0", None, None, [inner, ["D", b4, None, None, []]]]] + coupling(rng))
+            # the orbital momentum of the top decay written out (it decides the form factor, not the name of the spin structure)
+            top = rng.choice([None, None, None, "P", "D", "S"])
+            lines.append(["line", ["D", "D0", top, None, [inner, ["D", b4, None, None, []]]]] + coupling(rng))
     doc += lines
     if families:
         doc += required_families(doc, rng)
@@ -384,8 +386,10 @@ def required_families(doc, rng):
         if st[0] == "line":
             walk(st[1])
     for nm in sorted(spl):
-        out += [["constant", f"{nm}::Spline::Min", "0.6"], ["constant", f"{nm}::Spline::Max", "3"], ["constant", f"{nm}::Spline::N", "4"]]
-        out += [["variable", f"{nm}::Spline::Gamma::{k}", rng.choice(["2", "0"]), rng.choice(["1.0", "0.5"]), rng.choice(["0", "0.1"])] for k in range(3)]
+        nk = rng.choice([3, 3, 4, 6])
+        out += [["constant", f"{nm}::Spline::Min", rng.choice(["0.6", "0.25", "0.18412"])], ["constant", f"{nm}::Spline::Max", rng.choice(["3", "2.5", "1.9"])],
+                ["constant", f"{nm}::Spline::N", str(nk + 1)]]
+        out += [["variable", f"{nm}::Spline::Gamma::{k}", rng.choice(["2", "0"]), rng.choice(["1.0", "0.5", "0.00331"]), rng.choice(["0", "0.1"])] for k in range(nk)]
     if any(t.startswith("kMatrix") for t in tags):
         for n in ("sA0", "sA", "s0_prod", "s0_scatt"):      # programmatic_name("sA0") is the symbol sA_0 the lineshape uses
             out.append(["variable", n, "2", rng.choice(["-0.15", "1", "-0.07"]), "0"])
